@@ -422,8 +422,15 @@ fn prop(c: &Case) -> Verdict {
             .collect::<Vec<_>>()
             .join(","),
     };
+    let upper_hex_dst = gspecs.iter().any(|s| {
+        s.dst.as_ref().map_or(false, |d| {
+            d.len() == 40 && d.iter().all(|b| b.is_ascii_hexdigit()) && d.iter().any(|b| b.is_ascii_uppercase())
+        })
+    });
     let fail = |what: &str, detail: String| {
-        if git.funny_under_refs {
+        if upper_hex_dst {
+            Verdict::fail("hex-dst-case", detail)
+        } else if git.funny_under_refs {
             Verdict::fail("funny-dst", detail)
         } else {
             Verdict::fail(what, detail)
@@ -536,6 +543,11 @@ fn gen_spec(rng: &mut Rng, names: &[Vec<u8>]) -> Vec<u8> {
         r
     };
     let gen_dst = |rng: &mut Rng| -> Vec<u8> {
+        if rng.chance(1, 40) {
+            // a destination that looks like an object id (upper case sometimes: known class hex-dst-case)
+            let id = oid_of_index(rng.below(4) as usize + 9).to_hex().to_string();
+            return if rng.chance(1, 2) { id.to_ascii_uppercase().into_bytes() } else { id.into_bytes() };
+        }
         match rng.below(8) {
             0 => [b"heads/".to_vec(), gen_word(rng)].concat(),
             1 => [b"tags/".to_vec(), gen_word(rng)].concat(),
